@@ -22,15 +22,16 @@ Proof. exact db_claim. Qed.
 
 (* samples.csv, full statement for the pinned code: REFUTED (mixed single-name / nested paths; also one Model
    holding a tuple argument and a float argument) *)
-Theorem C09_loadable_refuted : ~ csv_claim false no_reserved.
+Theorem C09_loadable_legacy_refuted : ~ csv_claim false no_reserved.
 Proof. exact csv_refuted_mixed_depth. Qed.
 
-(* samples.csv, both variants: a top-level parameter named like a reserved column is lost: REFUTED *)
-Theorem C09_reserved_name_refuted : forall fx : bool, ~ csv_claim fx uniform_depth.
+(* history: samples.csv read through a per-row dict (before b5615dc), both key variants: a top-level parameter named like a
+   reserved column is lost: REFUTED for that reader *)
+Theorem C09_reserved_name_legacy_refuted : forall fx : bool, ~ csv_claim fx uniform_depth.
 Proof. exact csv_refuted_reserved. Qed.
 
 (* samples.csv, pinned code, under the guards excluding the two findings: same observables, loading succeeds *)
-Theorem C09_roundtrip_csv_partial : csv_claim false (fun Ws => uniform_depth Ws /\ no_reserved Ws).
+Theorem C09_roundtrip_csv_legacy_partial : csv_claim false (fun Ws => uniform_depth Ws /\ no_reserved Ws).
 Proof. exact csv_partial_claim. Qed.
 
 (* ... and when every parameter is nested the reloaded list is identical to the persisted one *)
@@ -42,22 +43,22 @@ Theorem C09_roundtrip_csv_nested : forall (fx : bool) (V cell : Type) (fmt : V -
 Proof. exact csv_nested_claim. Qed.
 
 (* samples.csv after the proposed key fix: every path depth *)
-Theorem C09_roundtrip_csv_fixed : csv_claim true no_reserved.
+Theorem C09_roundtrip_csv_legacy_reader : csv_claim true no_reserved.
 Proof. exact csv_fixed_claim. Qed.
 
 (* summary JSON (max-likelihood / median sample): pinned key handling fails on mixed depth: REFUTED *)
-Theorem C09_summary_refuted : ~ summary_claim false false (fun _ => True).
+Theorem C09_summary_legacy_refuted : ~ summary_claim false false (fun _ => True).
 Proof. exact summary_refuted_mixed_depth. Qed.
 
 (* summary JSON: the falsy-value filter loses a parameter equal to 0.0 whatever the key handling: REFUTED *)
-Theorem C09_summary_zero_refuted : forall fx : bool,
+Theorem C09_summary_zero_legacy_refuted : forall fx : bool,
   exists (Ws : list (path * nat)) (r : srow nat),
     shape_ok Ws /\ all_nested Ws /\ List.length (r_params r) = List.length (pids Ws) /\
     param_list [] Ws (json_roundtrip nid nid nzero fx true (from_row fx Ws r)) <> Ok (r_params r).
 Proof. exact summary_refuted_zero. Qed.
 
 (* summary JSON under the guards (uniform depth; no zero value when the filter is present) *)
-Theorem C09_summary_partial : forall drop0 : bool, summary_claim false drop0 uniform_depth.
+Theorem C09_summary_legacy_partial : forall drop0 : bool, summary_claim false drop0 uniform_depth.
 Proof. exact summary_partial_claim. Qed.
 
 (* summary JSON after the key fix: every depth (no zero value when the filter is present; none needed after both fixes) *)
@@ -76,10 +77,10 @@ Theorem C09_minimise_keeps_best : forall (V : Type) (add : V -> V -> V) (gtb : V
 Proof. exact @minimise_keeps_best. Qed.
 
 (* ---------------------------------------------------------------- the code as it is now (both fixes applied), over model trees *)
-(* every well-formed tree, samples.csv: same value per parameter, log-likelihood, log-prior, weight in order; loading succeeds.
+(* history (reader before b5615dc): every well-formed tree, samples.csv: same value per parameter, log-likelihood, log-prior, weight in order; loading succeeds.
    Only guards: no top-level parameter named like a reserved column (finding), and -- only for models whose unique paths
    are all single names -- distinct names (automatic without tuple priors, C09_names_no_tuples) *)
-Theorem C09_tree_csv : forall (V cell : Type) (fmt : V -> cell) (parse : cell -> V) (add : V -> V -> V),
+Theorem C09_tree_csv_legacy_reader : forall (V cell : Type) (fmt : V -> cell) (parse : cell -> V) (add : V -> V -> V),
   (forall v, parse (fmt v) = v) ->
   forall (t : node) (rows : list (srow V)),
     wf_root t -> no_reserved (sorted_walk t) ->
@@ -137,9 +138,11 @@ Theorem C09_json_one_row : forall (A : Type) (h : list (string * A)) (k : string
   json_count k (run_json h) = if in_dec string_dec k (map fst h) then 1 else 0.
 Proof. exact @json_one_row. Qed.
 
-(* samples.csv read by position (proposed_fixes/C09-table-columns-by-position.diff; Variant.table_reads_by_position):
-   every well-formed tree, no guard on parameter names -- the reserved-column-name finding disappears *)
-Theorem C09_tree_csv_by_position : forall (V cell : Type) (fmt : V -> cell) (parse : cell -> V) (add : V -> V -> V),
+(* ================================================================ HEADLINE, the code as it is now (b5615dc: samples.csv is
+   read by position; 9e9d176 key handling; 04fca50 dict filter): every well-formed tree, every sample list, NO guard on
+   parameter names: same value per parameter, log-likelihood, log-prior, weight in order; loading succeeds.
+   (names of different priors must differ only for models whose unique paths are all single names, C09_names_no_tuples) *)
+Theorem C09_tree_csv : forall (V cell : Type) (fmt : V -> cell) (parse : cell -> V) (add : V -> V -> V),
   (forall v, parse (fmt v) = v) ->
   forall (t : node) (rows : list (srow V)),
     wf_root t ->
@@ -149,14 +152,23 @@ Theorem C09_tree_csv_by_position : forall (V cell : Type) (fmt : V -> cell) (par
              (observe (tuple_paths [] t) (sorted_walk t)) = Ok (expected rows).
 Proof. exact @tree_csv_by_position. Qed.
 
+(* the same over any id-sorted walk with distinct paths *)
+Theorem C09_roundtrip_csv : forall (V cell : Type) (fmt : V -> cell) (parse : cell -> V) (add : V -> V -> V),
+  (forall v, parse (fmt v) = v) ->
+  forall (Ws : list (path * nat)) (tps : list path), shape_ok Ws ->
+  forall rows : list (srow V), rows_ok Ws rows -> (all_flat Ws -> names_injective tps Ws) ->
+    res_bind (csv_roundtrip_pos fmt parse add true tps Ws (from_lists true Ws rows)) (observe tps Ws) = Ok (expected rows).
+Proof. exact @csv_pos_fixed. Qed.
+
 Print Assumptions C09_shapes.
 Print Assumptions C09_roundtrip_db.
-Print Assumptions C09_roundtrip_csv_partial.
-Print Assumptions C09_roundtrip_csv_fixed.
-Print Assumptions C09_loadable_refuted.
+Print Assumptions C09_roundtrip_csv_legacy_partial.
+Print Assumptions C09_roundtrip_csv_legacy_reader.
+Print Assumptions C09_loadable_legacy_refuted.
 Print Assumptions C09_summary_fixed.
-Print Assumptions C09_tree_csv.
+Print Assumptions C09_tree_csv_legacy_reader.
 Print Assumptions C09_tree_db.
 Print Assumptions C09_value_per_path_recreated.
 Print Assumptions C09_json_latest_wins.
-Print Assumptions C09_tree_csv_by_position.
+Print Assumptions C09_tree_csv.
+Print Assumptions C09_roundtrip_csv.
